@@ -353,7 +353,7 @@ func runC19(c *Ctx) {
 	for i := 0; i < c.N(4, 40); i++ {
 		objs = append(objs, obj{"p7", randBytes(rng, 1+rng.Intn(100)), 0, "pkcs7"})
 	}
-	nseq, rounds := c.N(24, 60), c.N(40, 1000)
+	nseq, rounds := c.Bound(24, 60), c.Bound(40, 1000)
 	for i, o := range objs {
 		g := []int{2, 3, 4, 8, 16}[i%5]
 		seed := rng.Int63()
